@@ -429,6 +429,65 @@ func c16RunComplete(c *Ctx, cs c16Case) map[string]any {
 	return f
 }
 
+// c16RunSession: ONE long-lived server with a workspace answers the case's positions, then
+// another file of the workspace is edited in the editor (opened with a new text, or opened and
+// changed, saved or not) and the very same positions of the untouched document are asked again.
+// The second answer is judged against the symbol table of a FRESH server started on the final
+// state: names that left the workspace must be gone, new ones must be offered.  Both rounds are
+// ordinary c16.complete cases for the driver.  (Added after seed r5-C16: an analysis cached per
+// document and keyed by the document's own text answered from the old symbol table.)
+func c16RunSession(c *Ctx, cs c16Case, other, newText string) []map[string]any {
+	srv, uri := c16Server(c, cs, cs.Max)
+	ctx := context.Background()
+	round := func(cs c16Case, res *analyzer.AnalysisResult) map[string]any {
+		f := cs.fields()
+		f["line"] = c16LineOf(cs.Doc, cs.Ln)
+		f["tab"] = c16Table(res)
+		dc := &c16Detail{res, cs.Counts}
+		impl := []any{}
+		for i, ch := range cs.Chs {
+			tr := ""
+			if i < len(cs.Trs) {
+				tr = cs.Trs[i]
+			}
+			o := c16Complete(srv, uri, cs.Ln, ch, tr, dc)
+			c16CountAnswer(c, o, cs.Max)
+			impl = append(impl, o)
+		}
+		f["impl"] = impl
+		return f
+	}
+	out := []map[string]any{round(cs, c16Analysis(srv, uri, cs.Doc))}
+	dir := filepath.Dir(strings.TrimPrefix(string(uri), "file://"))
+	ou := protocol.DocumentURI("file://" + filepath.Join(dir, other))
+	switch c.R.IntN(3) {
+	case 0: // opened with the new text (the file on disk is older)
+		_ = srv.DidOpen(ctx, &protocol.DidOpenTextDocumentParams{TextDocument: protocol.TextDocumentItem{URI: ou, Text: newText, Version: 1}})
+	case 1: // opened as on disk, then typed
+		_ = srv.DidOpen(ctx, &protocol.DidOpenTextDocumentParams{TextDocument: protocol.TextDocumentItem{URI: ou, Text: cs.Files[other], Version: 1}})
+		_ = srv.DidChange(ctx, &protocol.DidChangeTextDocumentParams{
+			TextDocument:   protocol.VersionedTextDocumentIdentifier{TextDocumentIdentifier: protocol.TextDocumentIdentifier{URI: ou}, Version: 2},
+			ContentChanges: []protocol.TextDocumentContentChangeEvent{{Text: newText}}})
+	default: // typed, saved and closed
+		_ = srv.DidOpen(ctx, &protocol.DidOpenTextDocumentParams{TextDocument: protocol.TextDocumentItem{URI: ou, Text: cs.Files[other], Version: 1}})
+		_ = srv.DidChange(ctx, &protocol.DidChangeTextDocumentParams{
+			TextDocument:   protocol.VersionedTextDocumentIdentifier{TextDocumentIdentifier: protocol.TextDocumentIdentifier{URI: ou}, Version: 2},
+			ContentChanges: []protocol.TextDocumentContentChangeEvent{{Text: newText}}})
+		_ = os.WriteFile(filepath.Join(dir, other), []byte(newText), 0o644)
+		_ = srv.DidSave(ctx, &protocol.DidSaveTextDocumentParams{TextDocument: protocol.TextDocumentIdentifier{URI: ou}})
+		_ = srv.DidClose(ctx, &protocol.DidCloseTextDocumentParams{TextDocument: protocol.TextDocumentIdentifier{URI: ou}})
+	}
+	cs2 := cs
+	cs2.Files = map[string]string{}
+	for k, v := range cs.Files {
+		cs2.Files[k] = v
+	}
+	cs2.Files[other] = newText
+	fresh, furi := c16Server(c, cs2, cs2.Max)
+	out = append(out, round(cs2, c16Analysis(fresh, furi, cs2.Doc)))
+	return out
+}
+
 func c16RunPair(c *Ctx, cs c16Case, max2 int) map[string]any {
 	f := cs.fields()
 	f["max2"] = max2
@@ -1241,6 +1300,13 @@ func genC16(c *Ctx) {
 			c.Count("fuzzy.off")
 		}
 		c.Emit("c16.complete", c16RunComplete(c, cs))
+		if mode == "workspace" && r.IntN(2) == 0 {
+			other := c16NewGen(c)
+			c.Count("complete.session")
+			for _, f := range c16RunSession(c, cs, "b.journal", strings.Join(other.body(1+r.IntN(3)), "\n")+"\n") {
+				c.Emit("c16.complete", f)
+			}
+		}
 		// every position of some other line of the same document (complete lines)
 		if r.IntN(3) == 0 {
 			lines := strings.Split(doc, "\n")
